@@ -5,6 +5,7 @@ import (
 	"go/ast"
 	"go/token"
 	"go/types"
+	"path/filepath"
 	"sort"
 	"strings"
 )
@@ -251,7 +252,7 @@ func (x *Exec) callInterface(st *State, call *ast.CallExpr, f *ast.SelectorExpr,
 	it := x.typeOf(f.X)
 	v := x.eval(st, f.X)
 	sig := m.Type().(*types.Signature)
-	if opts, ok := x.p.PureMethods[typeStr(it)+"."+m.Name()]; ok && sig.Params().Len() == 0 && sig.Results().Len() == 1 {
+	if opts, ok := x.p.PureMethods[filepath.Dir(x.p.Fset.Position(x.top.Decl.Pos()).Filename)+"|"+typeStr(it)+"."+m.Name()]; ok && sig.Params().Len() == 0 && sig.Results().Len() == 1 {
 		// assumed: a deterministic function of the receiver value (listed in the evidence)
 		if x.spec == 0 {
 			x.oblige(st, "nil", "", Neq(v, ifaceNil), call)
@@ -1400,6 +1401,11 @@ func (x *Exec) evalMarker(st *State, call *ast.CallExpr, name string) *Term {
 			c := x.evalSpec(st.clone(), closureExpr(call.Args[1]))
 			x.oblige(st, "assert", strLit(call.Args[0], x.info()), c, call)
 			st.assume(c)
+		}
+		return tTrue
+	case "__ghostat":
+		if x.spec == 0 {
+			x.ghostSet(st, strLit(call.Args[0], x.info()), x.evalSpec(st.clone(), closureExpr(call.Args[1])))
 		}
 		return tTrue
 	case "__assumeat":
